@@ -18,7 +18,7 @@ print(' '.join(dict.fromkeys(re.findall(r'\b(C\d\d) (?:quick|thorough)', m.get('
   for c in $checks; do
     out=$(VERIF_REPO=$W ./check $c quick 2>&1)
     if echo "$out" | grep -q '^VIOLATION'; then hit="$hit $c"; fi
-    if echo "$out" | grep -q 'MACHINERY'; then hit="$hit $c(MACHINERY-ERROR:not-a-verdict)"; rc=1; fi
+    if echo "$out" | grep -q 'MACHINERY-ERROR'; then hit="$hit $c(MACHINERY-ERROR:not-a-verdict)"; rc=1; fi
   done
   git -C $W checkout -q -- .
   if [ -n "$hit" ]; then echo "$n detected-by:$hit"; else echo "$n MISSED (ran: $checks)"; rc=1; fi
